@@ -109,7 +109,7 @@ Section LSpec.
   Notation subs_check := (subs_check num zero).
   Notation comp_check := (comp_check num zero).
   Notation conv_all := (conv_all num sub absf ltb).
-  Notation solve_t := (linker_solve_t_M num sub absf ltb zero sev pre ebefore eafter post).
+  Notation solve_t := (linker_solve_t_body num sub absf ltb zero sev pre ebefore eafter post).
   Notation crel := (crel num).
   Notation srel := (srel num).
   Notation prel := (prel num).
@@ -472,7 +472,7 @@ Section LSpec.
        | None => LLDone (lst_after ids o t s1 N) Failed N
        end).
   Proof.
-    intros ids N Hc Hz Hp Hq. unfold Linker.linker_solve_t_M. fold ids. rewrite Hc, Hz, Hp. fold N.
+    intros ids N Hc Hz Hp Hq. unfold Linker.linker_solve_t_body. fold ids. rewrite Hc, Hz, Hp. fold N.
     pose proof (lloop_spec ids o t c0 s1 N 0) as HL. cbn [lst_after lchk Nat.add] in HL. rewrite HL; [reflexivity| |].
     - intros i Hi. apply Hq. lia.
     - intros i Hi.
